@@ -119,3 +119,95 @@ Proof. exact (@lzma_sink_grows). Qed.
 Check C12_lzma_sink_only_grows :
   forall (fuel : positive) (o : options) (w : io), Grows w (snd (lzma_decompress fuel o w)).
 Print Assumptions C12_lzma_sink_only_grows.
+
+From LZ Require Import Model.Stream Proofs.FaultProp Proofs.FaultStreamProp Proofs.FaultStreamRel Proofs.FaultStreamDrive Proofs.FaultStream.
+
+(* streaming decoder, any sequence of write / flush calls followed by finish: a sink fault newly hit during the sequence makes some write or finish return Failed EIo - never swallowed, never a panic   [proved as stream_fault_propagates in Proofs/FaultStreamProp.v] *)
+Theorem C12_stream_fault_propagates :
+  forall (s : stream) (cs : list StreamLatch.call) (rs : list StreamLatch.cres) (s' : stream) 
+    (r : outcome unit) (k : snk),
+  StreamLatch.run_calls s cs = (rs, s') ->
+  stream_finish s' = (r, k) ->
+  FaultTheorems.snk_hit (stream_sink s) = false ->
+  FaultTheorems.snk_hit k = false \/ In (StreamLatch.RW (Failed EIo)) rs \/ r = Failed EIo.
+Proof. exact (@stream_fault_propagates). Qed.
+Check C12_stream_fault_propagates :
+  forall (s : stream) (cs : list StreamLatch.call) (rs : list StreamLatch.cres) (s' : stream) 
+    (r : outcome unit) (k : snk),
+  StreamLatch.run_calls s cs = (rs, s') ->
+  stream_finish s' = (r, k) ->
+  FaultTheorems.snk_hit (stream_sink s) = false ->
+  FaultTheorems.snk_hit k = false \/ In (StreamLatch.RW (Failed EIo)) rs \/ r = Failed EIo.
+Print Assumptions C12_stream_fault_propagates.
+
+(* sharper: the first hit is a write returning exactly Failed EIo; afterwards the stream is dead   [proved as stream_first_hit in Proofs/FaultStreamProp.v] *)
+Theorem C12_stream_first_hit :
+  forall (cs : list StreamLatch.call) (s : stream),
+  FaultTheorems.snk_hit (stream_sink s) = false ->
+  FaultTheorems.snk_hit (stream_sink (snd (StreamLatch.run_calls s cs))) = true ->
+  exists (cs1 : list StreamLatch.call) (d : list N) (cs2 : list StreamLatch.call),
+    cs = cs1 ++ StreamLatch.CWrite d :: cs2 /\
+    FaultTheorems.snk_hit (stream_sink (snd (StreamLatch.run_calls s cs1))) = false /\
+    fst (StreamLatch.do_call (snd (StreamLatch.run_calls s cs1)) (StreamLatch.CWrite d)) =
+    StreamLatch.RW (Failed EIo) /\
+    FaultTheorems.snk_hit
+      (stream_sink (snd (StreamLatch.do_call (snd (StreamLatch.run_calls s cs1)) (StreamLatch.CWrite d)))) =
+    true /\
+    st_state (snd (StreamLatch.do_call (snd (StreamLatch.run_calls s cs1)) (StreamLatch.CWrite d))) = None /\
+    Forall StreamLatch.quiet
+      (fst
+         (StreamLatch.run_calls
+            (snd (StreamLatch.do_call (snd (StreamLatch.run_calls s cs1)) (StreamLatch.CWrite d))) cs2)) /\
+    snd (StreamLatch.run_calls s cs) =
+    snd (StreamLatch.do_call (snd (StreamLatch.run_calls s cs1)) (StreamLatch.CWrite d)) /\
+    fst (stream_finish (snd (StreamLatch.run_calls s cs))) = Failed ELzma.
+Proof. exact (@stream_first_hit). Qed.
+Check C12_stream_first_hit :
+  forall (cs : list StreamLatch.call) (s : stream),
+  FaultTheorems.snk_hit (stream_sink s) = false ->
+  FaultTheorems.snk_hit (stream_sink (snd (StreamLatch.run_calls s cs))) = true ->
+  exists (cs1 : list StreamLatch.call) (d : list N) (cs2 : list StreamLatch.call),
+    cs = cs1 ++ StreamLatch.CWrite d :: cs2 /\
+    FaultTheorems.snk_hit (stream_sink (snd (StreamLatch.run_calls s cs1))) = false /\
+    fst (StreamLatch.do_call (snd (StreamLatch.run_calls s cs1)) (StreamLatch.CWrite d)) =
+    StreamLatch.RW (Failed EIo) /\
+    FaultTheorems.snk_hit
+      (stream_sink (snd (StreamLatch.do_call (snd (StreamLatch.run_calls s cs1)) (StreamLatch.CWrite d)))) =
+    true /\
+    st_state (snd (StreamLatch.do_call (snd (StreamLatch.run_calls s cs1)) (StreamLatch.CWrite d))) = None /\
+    Forall StreamLatch.quiet
+      (fst
+         (StreamLatch.run_calls
+            (snd (StreamLatch.do_call (snd (StreamLatch.run_calls s cs1)) (StreamLatch.CWrite d))) cs2)) /\
+    snd (StreamLatch.run_calls s cs) =
+    snd (StreamLatch.do_call (snd (StreamLatch.run_calls s cs1)) (StreamLatch.CWrite d)) /\
+    fst (stream_finish (snd (StreamLatch.run_calls s cs))) = Failed ELzma.
+Print Assumptions C12_stream_first_hit.
+
+(* under ANY sink behaviour the bytes the sink accepted, after any call prefix and after finish, are a prefix of what a never-failing twin sink receives from the same calls   [proved as stream_faulty_prefix in Proofs/FaultStream.v] *)
+Theorem C12_stream_prefix_of_fault_free :
+  forall (o : options) (k k' : snk) (cs : list StreamLatch.call),
+  twin k k' ->
+  StreamPrefix.ext (stream_sink (snd (StreamLatch.run_calls (stream_new o k) cs)))
+    (stream_sink (snd (StreamLatch.run_calls (stream_new o k') cs))) /\
+  StreamPrefix.ext (snd (stream_finish (snd (StreamLatch.run_calls (stream_new o k) cs))))
+    (snd (stream_finish (snd (StreamLatch.run_calls (stream_new o k') cs)))).
+Proof. exact (@stream_faulty_prefix). Qed.
+Check C12_stream_prefix_of_fault_free :
+  forall (o : options) (k k' : snk) (cs : list StreamLatch.call),
+  twin k k' ->
+  StreamPrefix.ext (stream_sink (snd (StreamLatch.run_calls (stream_new o k) cs)))
+    (stream_sink (snd (StreamLatch.run_calls (stream_new o k') cs))) /\
+  StreamPrefix.ext (snd (stream_finish (snd (StreamLatch.run_calls (stream_new o k) cs))))
+    (snd (stream_finish (snd (StreamLatch.run_calls (stream_new o k') cs)))).
+Print Assumptions C12_stream_prefix_of_fault_free.
+
+(* sinks that accept only part of each write (never failing): identical call results, bytes, finish verdict and flush count as the accept-all sink - the complete data arrives   [proved as stream_short_writes_complete in Proofs/FaultStream.v] *)
+Theorem C12_stream_short_writes_complete :
+  forall (o : options) (k k' : snk) (cs : list StreamLatch.call),
+  same_data k k' -> StreamSameVerdicts (stream_new o k) (stream_new o k') cs.
+Proof. exact (@stream_short_writes_complete). Qed.
+Check C12_stream_short_writes_complete :
+  forall (o : options) (k k' : snk) (cs : list StreamLatch.call),
+  same_data k k' -> StreamSameVerdicts (stream_new o k) (stream_new o k') cs.
+Print Assumptions C12_stream_short_writes_complete.
